@@ -5,7 +5,8 @@ over the run-level object of the stream machine (`BV/Model/StreamRun.lean`: `run
 
 * `stream_phase_within_buffer`, `oneshot_contract_run`: the stream phase of the one-shot call — a
   single FINISH call on a fresh encoder with `available_out = *encoded_size` — never hands out more
-  than `available_out` bytes (cursor balance of the stream machine, C13/C20's `call_good`), so the
+  than `available_out` bytes and `total_out_` counts exactly them (byte ledger of the stream machine,
+  Lemmas/StreamTotal.lean), so the
   hypothesis `so.totalOut ≤ outCap` of `BV.Props.C08.oneshot_contract` is discharged for the
   outcome the stream model computes.
 * `nonfinal_requests_cover_blocks_run`: the hypothesis `BlocksOK` of the stream clause DERIVED FROM THE
@@ -13,7 +14,7 @@ over the run-level object of the stream machine (`BV/Model/StreamRun.lean`: `run
   run-level simulation `run_sim`, Lemmas/StreamRunSim.lean + StreamNFFull.lean).
 -/
 import BV.Props.C08
-import BV.Lemmas.AdaptersStreamEnc
+import BV.Lemmas.StreamTotal
 import BV.Lemmas.StreamRunTile
 import BV.Model.StreamNF
 import BV.Lemmas.StreamNFFull
@@ -23,50 +24,62 @@ open BV.Stream BV.Bits BV.Stored
 
 /-! ## the stream phase of the one-shot call -/
 
-/-- **stream_phase_within_buffer**: one `compress_stream` call (PROCESS / FLUSH / FINISH) on an
-encoder on which only `set_parameter` has been called — any parameters, any input, any capacity,
-any payload-encoder answers of bounded length — hands out exactly `cap - available_out'` bytes:
-never more than the caller's `available_out`. -/
-theorem stream_phase_within_buffer {o : Oracle} {B fuel op cap : Nat} {input : Bytes} {s s' : St} {io' : Io} {r : Bool}
-    (hB : OracleBounded o B) (hop : op ≤ 2) (hf : IsFresh s) (hw : input.length < two64)
+/-- **stream_phase_within_buffer**: one `compress_stream` call (any operation) on an encoder on which
+only `set_parameter` has been called — any parameters, any input, any capacity below 2^64, ANY
+payload-encoder answers — hands out exactly `cap - available_out'` bytes, never more than the caller's
+`available_out`, and `total_out_` is exactly their number (byte ledger of the stream machine,
+Lemmas/StreamTotal.lean `call_ledger_run`). -/
+theorem stream_phase_within_buffer {o : Oracle} {fuel op cap : Nat} {input : Bytes} {s s' : St} {io' : Io} {r : Bool}
+    (hop : op ≤ 3) (hf : IsFresh s) (hw : input.length < two64) (hcap : cap < two64)
     (h : compressStream o fuel s op input cap = .ok (s', io', r)) :
-    io'.out.length + io'.availOut = cap ∧ io'.out.length ≤ cap := by
-  rw [compressStream_ensure] at h
-  have hG := BV.Adapters.good_fresh hf
-  have hip : (ensureInitialized s).inputPos = 0 := by
-    obtain ⟨p, rfl⟩ := hf
-    simp [ensureInitialized, St.new]
-  obtain ⟨q1, _⟩ := call_good hop hG (by rw [hip]; omega) h
-  exact ⟨q1, by omega⟩
+    io'.out.length + io'.availOut = cap ∧ io'.out.length ≤ cap ∧ s'.totalOut = io'.out.length := by
+  have hip : s.inputPos = 0 := (isFresh_fields hf).2.2.1
+  have ht0 : s.totalOut = 0 := by obtain ⟨p, rfl⟩ := hf; rfl
+  have hL := call_ledger_run 0 hop (Or.inl hf) (by rw [hip]; omega) h
+  have h1 := hL.outBal
+  have h2 := hL.total (by rw [ht0]; rfl)
+  simp only at h1 h2
+  refine ⟨h1, by omega, ?_⟩
+  rw [h2, Nat.zero_add]
+  exact Nat.mod_eq_of_lt (by omega)
 
 /-- **oneshot_contract_run**: `oneshot_contract` with its stream-phase hypothesis discharged.  For
-every input shorter than 2^54, every `*encoded_size = outCap ≤ encoded_buffer.len()`, every
-parameter set the private encoder may have been given and every (bounded) behaviour of the payload
+every input shorter than 2^54, every `*encoded_size = outCap ≤ encoded_buffer.len()` (a `usize`),
+every parameter set the private encoder may have been given and EVERY behaviour of the payload
 encoder: if the stream phase returns at all (no panic of the stream machine: C01), the one-shot call
 does not panic, returns false for an empty buffer, on success reports a size within the buffer AND
 within `BrotliEncoderMaxCompressedSize` with the bytes of the `[6]` stream, of the completed stream
 phase or of the stored stream, returns true whenever the buffer is at least the bound, and reports
-size 0 on failure. -/
-theorem oneshot_contract_run {o : Oracle} {B fuel : Nat} (x : Bytes) (outCap bufLen : Nat) (s : St) (so : StreamOutcome)
-    (hB : OracleBounded o B) (hf : IsFresh s) (hn : x.length < 2 ^ 54) (hbuf : outCap ≤ bufLen)
+size 0 on failure.  `so.totalOut` is the encoder's own `total_out_`. -/
+theorem oneshot_contract_run {o : Oracle} {fuel : Nat} (x : Bytes) (outCap bufLen : Nat) (s : St) (so : StreamOutcome)
+    (hf : IsFresh s) (hn : x.length < 2 ^ 54) (hbuf : outCap ≤ bufLen) (hcap : outCap < two64)
     (hso : outcomeOf (compressStream o fuel s 2 x outCap) = some so) :
     ∃ r, encoderCompress x x.length outCap bufLen so = .ok r ∧
       (outCap = 0 → r.ret = false) ∧
       (r.ret = true → r.encodedSize ≤ outCap ∧ r.encodedSize ≤ maxCompressedSize x.length ∧
         ((x.length = 0 ∧ r.bytes = [6] ∧ r.encodedSize = 1) ∨
-         (so.result = true ∧ so.finished = true ∧ r.bytes = so.bytes ∧ r.encodedSize = so.totalOut) ∨
+         (so.result = true ∧ so.finished = true ∧ r.bytes = so.bytes ∧ r.encodedSize = so.totalOut ∧ so.totalOut = so.bytes.length) ∨
          (makeUncompressedStream x x.length bufLen = .ok r.bytes ∧ r.encodedSize = r.bytes.length))) ∧
       (maxCompressedSize x.length ≤ outCap → r.ret = true) ∧
       (r.ret = false → r.encodedSize = 0) := by
-  have hle : so.totalOut ≤ outCap := by
+  have hle : so.totalOut ≤ outCap ∧ so.totalOut = so.bytes.length := by
     unfold outcomeOf at hso
     split at hso
     · rename_i s' io' res hc
       simp only [Option.some.injEq] at hso
       subst hso
-      exact (stream_phase_within_buffer hB (by omega) hf (by unfold two64; omega) hc).2
+      obtain ⟨_, q2, q3⟩ := stream_phase_within_buffer (by omega) hf (by unfold two64; omega) hcap hc
+      exact ⟨by simp only; omega, q3⟩
     · cases hso
-  exact BV.Props.C08.oneshot_contract x outCap bufLen so hn hbuf hle
+  obtain ⟨r, h1, h2, h3, h4, h5⟩ := BV.Props.C08.oneshot_contract x outCap bufLen so hn hbuf hle.1
+  refine ⟨r, h1, h2, ?_, h4, h5⟩
+  intro hr
+  obtain ⟨a1, a2, a3⟩ := h3 hr
+  refine ⟨a1, a2, ?_⟩
+  rcases a3 with a | ⟨b1, b2, b3, b4⟩ | c
+  · exact Or.inl a
+  · exact Or.inr (Or.inl ⟨b1, b2, b3, b4, hle.2⟩)
+  · exact Or.inr (Or.inr c)
 
 /-- the private encoder of the one-shot call is a fresh encoder on which only `set_parameter` ran -/
 theorem oneshotState_fresh (quality lgwin : Int) (n : Nat) : IsFresh (oneshotState quality lgwin n) := by
@@ -80,12 +93,12 @@ theorem oneshotState_fresh (quality lgwin : Int) (n : Nat) : IsFresh (oneshotSta
 /-- **oneshot_run_contract**: the one-shot call as ONE object over the stream machine
 (`oneshotRun`: the five `set_parameter` calls of `encoder_compress` on a new encoder, one
 `compress_stream(FINISH)` with `available_out = *encoded_size`, then the decision logic) — for every
-quality and window, every input shorter than 2^54, every buffer, every bounded behaviour of the
+quality and window, every input shorter than 2^54, every buffer, EVERY behaviour of the
 payload encoder: whenever the stream phase returns, the call does not panic; an empty buffer gives
 false; success means a size within the buffer and within `BrotliEncoderMaxCompressedSize`; a buffer of
-at least the bound gives success; failure reports size 0.  No hypothesis about `total_out` is left. -/
-theorem oneshot_run_contract {o : Oracle} {B fuel : Nat} (quality lgwin : Int) (x : Bytes) (outCap bufLen : Nat)
-    (hB : OracleBounded o B) (hn : x.length < 2 ^ 54) (hbuf : outCap ≤ bufLen) (res : Out OneShot)
+at least the bound gives success; failure reports size 0.  No hypothesis about `total_out` or about the oracle is left. -/
+theorem oneshot_run_contract {o : Oracle} {fuel : Nat} (quality lgwin : Int) (x : Bytes) (outCap bufLen : Nat)
+    (hn : x.length < 2 ^ 54) (hbuf : outCap ≤ bufLen) (hcap : outCap < two64) (res : Out OneShot)
     (h : oneshotRun o fuel quality lgwin x outCap bufLen = some res) :
     ∃ r, res = .ok r ∧ (outCap = 0 → r.ret = false) ∧
       (r.ret = true → r.encodedSize ≤ outCap ∧ r.encodedSize ≤ maxCompressedSize x.length) ∧
@@ -100,7 +113,7 @@ theorem oneshot_run_contract {o : Oracle} {B fuel : Nat} (quality lgwin : Int) (
     · rename_i so hso
       simp only [Option.some.injEq] at h
       subst h
-      obtain ⟨r, h1, h2, h3, h4, h5⟩ := oneshot_contract_run x outCap bufLen _ so hB (oneshotState_fresh quality lgwin x.length) hn hbuf hso
+      obtain ⟨r, h1, h2, h3, h4, h5⟩ := oneshot_contract_run x outCap bufLen _ so (oneshotState_fresh quality lgwin x.length) hn hbuf hcap hso
       exact ⟨r, h1, h2, fun hr => ⟨(h3 hr).1, (h3 hr).2.1⟩, h4, h5⟩
     · cases h
 
@@ -151,6 +164,5 @@ def exampleCheck (r : Option (Out OneShot)) (ret : Bool) (sz : Nat) (k : String)
   match r with | some (.ok r) => r.ret == ret && r.encodedSize == sz && r.kind == k | _ => false
 example : exampleCheck (oneshotRun exampleOracle 60 5 22 [1, 2, 3] 100 100) true 3 "stream" = true := by decide
 example : exampleCheck (oneshotRun exampleOracle 60 5 22 [1, 2, 3] 2 2) false 0 "too-small" = true := by decide
-example : OracleBounded exampleOracle 20 := fun _ _ => by simp [exampleOracle]
 
 end BV.Props.C08Run
